@@ -200,7 +200,11 @@ let handle toks =
         | _ -> "" in
       let st = ref init in
       let parts = List.map (fun t ->
-        let (s', os) = step_obs !st (ev_of t) in st := s';
+        (* "R2:c1:c2": two response frames arriving in ONE read chunk = two consecutive response events, one step *)
+        let es = (match String.split_on_char ':' t with
+                  | ["R2"; c1; c2] -> [ERsp (ni c1); ERsp (ni c2)]
+                  | _ -> [ev_of t]) in
+        let os = List.concat (List.map (fun e -> let (s', os) = step_obs !st e in st := s'; os) es) in
         String.concat " " (List.filter (fun x -> x <> "") (List.map show_o os))) evs in
       let pending = List.length (List.filter (fun r ->
         (match r.r_phase with PDone _ -> false | _ -> true) && (match r.r_fut with FPending -> true | _ -> false)) (!st).reqs) in
